@@ -436,6 +436,71 @@ func provePUncached(facts []pFact, a *pt, op token.Token, b *pt) bool {
 						// the empty string has value 0
 						lf = append(lf, Fact{E: linTerm(t.String(), false).Scale(-1)})
 					}
+					// a string all of whose bytes are zero has value 0 (a byte-by-byte zero test)
+					{
+						X := t.args[0].String()
+						idx := map[int]*pt{}
+						max := -1
+						var collect func(u *pt)
+						collect = func(u *pt) {
+							if u == nil {
+								return
+							}
+							if u.op == "byte" && len(u.args) == 1 && u.args[0].String() == X {
+								idx[u.k] = u
+								if u.k > max {
+									max = u.k
+								}
+							}
+							for _, x := range u.args {
+								collect(x)
+							}
+						}
+						for _, u := range terms {
+							collect(u)
+						}
+						if max >= 0 && len(idx) == max+1 {
+							// the zero bytes are read off the facts (byte == 0, byte <= 0, byte < 1), no LP needed
+							isZero := func(u *pt) bool {
+								us := u.String()
+								for _, f := range facts {
+									if f.a == nil {
+										continue
+									}
+									x, y, op := f.a, f.b, f.op
+									if y.String() == us {
+										x, y = y, x
+										op = map[token.Token]token.Token{token.EQL: token.EQL, token.GEQ: token.LEQ, token.GTR: token.LSS, token.LEQ: token.GEQ, token.LSS: token.GTR, token.NEQ: token.NEQ}[op]
+									}
+									if x.String() != us || y.op != "c" {
+										continue
+									}
+									if (op == token.EQL || op == token.LEQ) && y.n.Sign() == 0 {
+										return true
+									}
+									if op == token.LSS && y.n.Cmp(big.NewInt(1)) == 0 {
+										return true
+									}
+								}
+								return false
+							}
+							all := true
+							for i := 0; i <= max && all; i++ {
+								all = isZero(idx[i])
+							}
+							if all {
+								short := false
+								if n := pLen(t.args[0]); n >= 0 {
+									short = n <= max+1
+								} else {
+									short = ProveNonNeg(linConst(int64(max+1)).Sub(linTerm(pOp("len", t.args[0]).String(), false)), lf)
+								}
+								if short {
+									lf = append(lf, Fact{E: linTerm(t.String(), false).Scale(-1)})
+								}
+							}
+						}
+					}
 					if ProveNonNeg(linConst(31).Sub(linTerm(pOp("len", t.args[0]).String(), false)), lf) {
 						lf = append(lf, Fact{E: linTerm("B248", false).Sub(linTerm(t.String(), false)).Sub(linConst(1))})
 					} else if ProveNonNeg(linConst(32).Sub(linTerm(pOp("len", t.args[0]).String(), false)), lf) {
